@@ -29,7 +29,9 @@ TECHNIQUE = ('runtime post-condition monitors on Signal.butter_pass / remove_pol
 RULE = ('cases: (1) sinusoids amp*sin(2 pi f t+phi), f = edge x {0.1,0.3,0.5,0.8,1,1.25,2,4,10}, stratified over '
         'filter type x remove_gibbs x order 1..4, dt in {0.001..0.02}, cut-offs as tuple/list/ndarray, record >= 60 '
         'periods of the lowest cut-off (non-trivial = |H|^2 >= 1e-4, i.e. an output that is not ~0); pinned '
-        'low-normalised-edge designs (dt=0.001,(0.5,10),order 4 ...). (2) additivity/homogeneity on two independently '
+        'low-normalised-edge designs (dt=0.001,(0.5,10),order 4 ...); sequences of 2..4 calls on different sinusoids that '
+        'reuse ONE cut-off container object (float64 ndarray, int ndarray, list, tuple), each call judged against the '
+        'requested cut-offs, and the container compared bit-for-bit before/after every call. (2) additivity/homogeneity on two independently '
         'drawn random records (different classes, 30..5000 samples) per type x gibbs (non-trivial = both non-constant). '
         '(3) detrending degree k=0..4 on records of 8..2000 samples whose last sample lies >= 2.5 standard deviations '
         '(n <= 10: 80 % of the attainable (n-1)/sqrt(n)) from the mean (end spike, walk, ramp, step), method and array '
@@ -66,6 +68,8 @@ def gname(g):
 # ------------------------------------------------------------------------------------------------------ helpers
 def _witness(**observed):
     if CUR is not None:
+        if CUR.get('call') is not None:
+            observed['call_index'] = CUR['call']
         return {'kind': CUR['kind'], 'params': CUR['params'], 'observed': observed}
     return {'kind': 'direct', 'params': None, 'observed': observed}
 
@@ -114,11 +118,41 @@ def _pre_sig(args, kwargs):
     return _snap(args[0])
 
 
+def _freeze(c):
+    """Bit-for-bit image of a cut-off container (ndarray: dtype, shape, bytes; list/tuple: type and repr per item)."""
+    if isinstance(c, np.ndarray):
+        if c.dtype == object:
+            return ('ndarray', 'object', c.shape, tuple((type(v).__name__, repr(v)) for v in c.ravel().tolist()))
+        return ('ndarray', str(c.dtype), c.shape, np.ascontiguousarray(c).tobytes())
+    if isinstance(c, (list, tuple)):
+        return (type(c).__name__, tuple((type(v).__name__, repr(v)) for v in c))
+    return ('other', repr(c))
+
+
+def _thaw_desc(fr):
+    if fr[0] == 'ndarray' and fr[1] != 'object':
+        return 'ndarray(%s)%s' % (fr[1], np.frombuffer(fr[3], dtype=fr[1]).reshape(fr[2]).tolist())
+    return repr(fr)[:200]
+
+
+def _pre_butter(args, kwargs):
+    pre = _snap(args[0])
+    if len(args) > 1 or 'cut_off' in kwargs:
+        pre['cut_frozen'] = _freeze(args[1] if len(args) > 1 else kwargs['cut_off'])
+    return pre
+
+
 def _post_butter(args, kwargs, result, pre):
     ctx = CTX
     sig = args[0]
     cut_off = args[1] if len(args) > 1 else kwargs.get('cut_off', (0.1, 15))
     call = {'cut_off': cut_off, 'kwargs': {k: v for k, v in kwargs.items() if k != 'cut_off'}}
+    if 'cut_frozen' in pre:
+        now = _freeze(cut_off)
+        ctx.check(now == pre['cut_frozen'], 'butter.cutoff-argument-unchanged',
+                  lambda: _wit('butter_pass', pre, {'cut_off_before': _thaw_desc(pre['cut_frozen']),
+                                                    'cut_off_after': _thaw_desc(now)}, **call),
+                  'butter_pass modified its cut_off argument: %s -> %s' % (_thaw_desc(pre['cut_frozen']), _thaw_desc(now)))
     after = np.asarray(sig.values)
     ctx.check(after.ndim == 1 and len(after) == pre['npts'] and sig.npts == pre['npts'], 'butter.length-preserved',
               lambda: _wit('butter_pass', pre, {'npts_before': pre['npts'], 'npts_after': sig.npts,
@@ -135,7 +169,7 @@ def _post_butter(args, kwargs, result, pre):
               lambda: _wit('butter_pass', pre, {'n_nonfinite': int(np.sum(~np.isfinite(after)))}, **call),
               'butter_pass returned NaN/inf on a finite record (cut_off=%r, %r)' % (cut_off, call['kwargs']))
     if CUR is not None and CUR.get('expect') == 'sine':
-        _check_sine(ctx, CUR['params'], pre, after, kwargs)
+        _check_sine(ctx, CUR.get('sine') or CUR['params'], pre, after, kwargs)
 
 
 def _check_sine(ctx, p, pre, after, kwargs):
@@ -396,7 +430,7 @@ def install(ctx):
         return
     import eqsig
     S = eqsig.single.Signal
-    attach.wrap_method(S, 'butter_pass', _post_butter, pre=_pre_sig)
+    attach.wrap_method(S, 'butter_pass', _post_butter, pre=_pre_butter)
     attach.wrap_method(S, 'remove_poly', _post_remove_poly_method, pre=_pre_sig)
     attach.wrap_method(S, 'add_constant', _post_add_constant, pre=_pre_sig)
     attach.wrap_method(S, 'add_series', _post_add_series, pre=_pre_sig, on_exception=_exc_add_series)
@@ -407,9 +441,9 @@ def install(ctx):
 
 
 # ------------------------------------------------------------------------------------------------------ cases
-def _begin(kind, params, expect=None):
+def _begin(kind, params, expect=None, sine=None, call=None):
     global CUR
-    CUR = {'kind': kind, 'params': params, 'expect': expect}
+    CUR = {'kind': kind, 'params': params, 'expect': expect, 'sine': sine, 'call': call}
 
 
 def _end():
@@ -457,6 +491,26 @@ def case_sine(eqsig, ctx, p):
         _end()
 
 
+def case_sine_seq(eqsig, ctx, P):
+    """2..4 butter_pass calls on different sinusoids that REUSE ONE cut-off container object; every call is judged by
+    the monitor against the REQUESTED cut-offs (the values the container held before the first call)."""
+    cut = _mk_cut(P['lo'], P['hi'], P['container'])
+    for j, pj in enumerate(P['calls']):
+        pj = dict(pj, lo=P['lo'], hi=P['hi'], container=P['container'])
+        x = O.sinusoid(pj['n'], pj['dt'], pj['f'], pj['phi'], pj['amp'])
+        sig = _mk_sig(eqsig, pj.get('cls', 'AccSignal'), x, pj['dt'])
+        _begin('sine-seq', P, expect='sine', sine=pj, call=j)
+        try:
+            sig.butter_pass(cut, **_butter_kwargs(pj))
+            ctx.ok(_accept_clause(P['container']))
+            if j > 0:
+                ctx.ok('butter.sine.reused-cutoff-object-call-judged')
+        except Exception as e:
+            ctx.exception(_accept_clause(P['container']), _witness(fn='butter_pass'), e)
+        finally:
+            _end()
+
+
 def _accept_clause(container):
     return 'butter.cutoff-container.%s-accepted' % container.split('-')[0]
 
@@ -465,16 +519,17 @@ class _Rejected(Exception):
     pass
 
 
-def _filtered(eqsig, p, values, container=None, ctx=None):
+def _filtered(eqsig, p, values, container=None, ctx=None, cut_obj=None):
     """One monitored butter_pass execution; an exception on this in-domain call is recorded under the acceptance
-    clause of the cut-off container and re-raised as _Rejected."""
+    clause of the cut-off container and re-raised as _Rejected. cut_obj: an existing container object to reuse."""
     cont = container or p['container']
     sig = _mk_sig(eqsig, p.get('cls', 'AccSignal'), values, p['dt'])
+    cut = cut_obj if cut_obj is not None else _mk_cut(p['lo'], p['hi'], cont)
     if ctx is None:
-        sig.butter_pass(_mk_cut(p['lo'], p['hi'], cont), **_butter_kwargs(p))
+        sig.butter_pass(cut, **_butter_kwargs(p))
         return np.array(sig.values)
     try:
-        sig.butter_pass(_mk_cut(p['lo'], p['hi'], cont), **_butter_kwargs(p))
+        sig.butter_pass(cut, **_butter_kwargs(p))
     except Exception as e:
         ctx.exception(_accept_clause(cont), _witness(fn='butter_pass', container=cont), e)
         raise _Rejected()
@@ -530,16 +585,24 @@ def case_linear(eqsig, ctx, p):
 
 
 def case_container(eqsig, ctx, p):
-    """tuple / list / ndarray cut-offs are all accepted and give the same record."""
+    """tuple / list / ndarray cut-offs are all accepted and give the same record, also when ONE container object is
+    reused for several calls (the same signal re-created each time)."""
     x = np.asarray(p['x'], dtype=float)
     _begin('container', p)
     try:
         outs = {}
+        reused = []
         for cont in p['containers']:
-            try:
-                outs[cont] = _filtered(eqsig, p, x, container=cont, ctx=ctx)
-            except _Rejected:
-                pass
+            obj = _mk_cut(p['lo'], p['hi'], cont)
+            for r in range(int(p.get('reps', 1))):
+                try:
+                    v = _filtered(eqsig, p, x, container=cont, ctx=ctx, cut_obj=obj)
+                except _Rejected:
+                    break
+                if r == 0:
+                    outs[cont] = v
+                else:
+                    reused.append((cont, r, v))
         if p['lo'] is None or p['hi'] is None:
             # an ndarray holding None must have dtype=object: not clearly inside "cut-offs as array" -> counted only
             try:
@@ -557,6 +620,12 @@ def case_container(eqsig, ctx, p):
             ctx.check(ok, 'butter.cutoff-container.same-result',
                       lambda: _witness(container=cont),
                       'cut-off given as %s filters differently from the tuple form' % cont)
+        for cont, r, v in reused:
+            ok = v.shape == ref.shape and tol.close(v, ref, scale=float(np.max(np.abs(x))), rtol=EXACT_RTOL)
+            ctx.check(ok, 'butter.cutoff-container.reused-object-same-result',
+                      lambda: _witness(container=cont, call_index=r),
+                      'call %d with the SAME %s cut-off object filters differently from the first call with a fresh '
+                      'tuple (cut-offs requested: lo=%r hi=%r)' % (r + 1, cont, p['lo'], p['hi']))
     finally:
         _end()
 
@@ -732,7 +801,8 @@ def case_direct(eqsig, ctx, p):
         pass
 
 
-CASES = {'sine': case_sine, 'linear': case_linear, 'container': case_container, 'short': case_short,
+CASES = {'sine': case_sine, 'sine-seq': case_sine_seq, 'linear': case_linear, 'container': case_container,
+         'short': case_short,
          'detrend': case_detrend, 'add': case_add, 'runavg': case_runavg, 'direct': case_direct}
 
 
@@ -796,6 +866,44 @@ def gen_sine(rng, ftype, gibbs, order, ctx=None):
     return None
 
 
+INT_BAND_DESIGNS = [(1, 10), (2, 25), (1, 2), (5, 20), (1, 15), (2, 8), (3, 12)]
+SEQ_CONTAINERS = ['ndarray', 'ndarray-int', 'list', 'tuple']
+
+
+def gen_sine_seq(rng, container, ftype, ctx=None):
+    """One cut-off design, 2..4 sinusoid calls (own dt, frequency, order, gibbs option each)."""
+    for _ in range(30):
+        k = int(rng.integers(2, 5))
+        dts = [float(SINE_DT[int(rng.choice(len(SINE_DT), p=SINE_DT_P))]) for _ in range(k)]
+        nyq_min = 0.5 / max(dts)
+        if container == 'ndarray-int':
+            lo, hi = INT_BAND_DESIGNS[int(rng.integers(len(INT_BAND_DESIGNS)))]
+            lo, hi = float(lo), float(hi)
+            if hi >= 0.8 * nyq_min:
+                continue
+        else:
+            lo, hi = _pick_design(rng, ftype, nyq_min)
+        f_low = lo if lo is not None else hi
+        calls = []
+        for dt in dts:
+            n = max(1024, int(math.ceil(60.0 / (f_low * dt))))
+            edges = [e for e in (lo, hi) if e is not None]
+            f = edges[int(rng.integers(len(edges)))] * RATIOS[int(rng.integers(1, 7))]   # 0.3 .. 2: visible output
+            if n > MAX_SINE_N or f >= 0.9 * 0.5 / dt:
+                calls = None
+                break
+            calls.append({'n': n, 'dt': dt, 'f': float(f), 'phi': float(rng.uniform(0, 2 * math.pi)),
+                          'amp': float(rng.choice([1.0, 1.0, 0.01, 250.0])), 'order': int(rng.integers(1, 5)),
+                          'pass_order': bool(rng.random() < 0.5), 'gibbs': GIBBS[int(rng.integers(4))],
+                          'cls': 'AccSignal' if rng.random() < 0.7 else 'Signal'})
+        if calls is None:
+            if ctx is not None:
+                ctx.observe('sine-seq.design-redrawn')
+            continue
+        return {'lo': lo, 'hi': hi, 'container': container, 'calls': calls}
+    return None
+
+
 def pinned_sines():
     """Designs with low normalised edges that were unstable in transfer-function form (F19) + the default cut-off."""
     out = []
@@ -854,9 +962,10 @@ def gen_container(rng, ftype):
     q = {k: p[k] for k in ('dt', 'lo', 'hi', 'order', 'pass_order', 'gibbs', 'gibbs_extra', 'cls')}
     q['x'] = p['x']
     q['container'] = 'tuple'
+    q['reps'] = int(rng.integers(2, 5))
     if ftype == 'band':
         q['containers'] = ['tuple', 'list', 'ndarray']
-        if rng.random() < 0.3:
+        if rng.random() < 0.4:
             nyq = 0.5 / q['dt']
             lo = float(max(1, int(0.02 * nyq)))
             hi = float(max(lo + 1, int(0.5 * nyq)))
@@ -957,8 +1066,8 @@ def gen_runavg(rng, i):
 
 # ------------------------------------------------------------------------------------------------------ workload
 COUNTS = {   # per shard
-    'quick': {'sine': 60, 'linear': 48, 'container': 6, 'short': 2, 'detrend': 60, 'add': 84, 'runavg': 60},
-    'thorough': {'sine': 750, 'linear': 600, 'container': 60, 'short': 6, 'detrend': 1000, 'add': 1400, 'runavg': 1500},
+    'quick': {'sine': 60, 'sine_seq': 8, 'linear': 48, 'container': 6, 'short': 2, 'detrend': 60, 'add': 84, 'runavg': 60},
+    'thorough': {'sine': 750, 'sine_seq': 100, 'linear': 600, 'container': 60, 'short': 6, 'detrend': 1000, 'add': 1400, 'runavg': 1500},
 }
 
 
@@ -996,6 +1105,22 @@ def run_shard(ctx):
         gsq = O.butter_gain_sq(p['f'], p['dt'], p['order'], p['lo'], p['hi'])
         ctx.case(_dig('sine', p), nontrivial=gsq >= 1e-4, cls='sine-%s-gibbs-%s' % (t, gname(g)), sample=p)
         case_sine(eqsig, ctx, p)
+
+    # -- sequences of calls that reuse ONE cut-off container object (float64 / int ndarray, list, tuple)
+    for c in range(cnt['sine_seq']):
+        if ctx.out_of_time():
+            ctx.observe('out-of-time.sine-seq')
+            break
+        gi = c * nsh + sh
+        cont = SEQ_CONTAINERS[gi % 4]
+        t = 'band' if cont.startswith('ndarray') else TYPES[(gi // 4) % 3]
+        P = gen_sine_seq(rng, cont, t, ctx)
+        if P is None:
+            ctx.observe('sine-seq.no-admissible-design')
+            continue
+        later = [O.butter_gain_sq(q['f'], q['dt'], q['order'], P['lo'], P['hi']) for q in P['calls'][1:]]
+        ctx.case(_dig('sine-seq', P), nontrivial=bool(max(later) >= 1e-4), cls='sine-seq-%s-%s' % (cont, t), sample=P)
+        case_sine_seq(eqsig, ctx, P)
 
     # -- additivity / homogeneity on random records: every type x gibbs combination in turn
     combos = [(t, g) for t in TYPES for g in GIBBS]
@@ -1090,6 +1215,9 @@ def _min_evals():
         m['butter.cutoff-container.list-accepted'] = (sine + 4 * lin) // 8
         m['butter.cutoff-container.ndarray-accepted'] = (sine + 4 * lin) // 24
         m['butter.cutoff-container.same-result'] = cnt['container'] * nsh // 2
+        m['butter.cutoff-container.reused-object-same-result'] = cnt['container'] * nsh
+        m['butter.cutoff-argument-unchanged'] = (sine + 4 * lin) // 2
+        m['butter.sine.reused-cutoff-object-call-judged'] = cnt['sine_seq'] * nsh // 2
         for k in range(5):
             for api in ('method', 'fn'):
                 for c in ('bestfit-zero', 'removed-is-poly', '==lstsq-reference'):
